@@ -351,8 +351,12 @@ where
         .and_then(|i| args.extra.get(i + 1).cloned());
 
     // ---------------------------------------------------------------- regression plans
+    // `--no-regress` (sensitivity experiments only): judge the generated search by itself
+    let skip_regress = args.extra.iter().any(|a| a == "--no-regress");
     let reg_dir = args.root.join("regress").join(id);
-    if let Ok(rd) = std::fs::read_dir(&reg_dir) {
+    if skip_regress {
+        println!("note: regression plans skipped (--no-regress)");
+    } else if let Ok(rd) = std::fs::read_dir(&reg_dir) {
         let mut files: Vec<PathBuf> = rd.flatten().map(|e| e.path()).collect();
         files.sort();
         for p in files {
